@@ -23,11 +23,12 @@ CASES = [
     (r'k\.rank_small.*', r'.*', ['rank_all']),
     (r'(k\.)?rcl.*', r'.*', ['rcl']),
     (r'ef\.builder', r'(push|push_unchecked|build)', ['ef_builder', 'ef_seq']),
-    (r'ef\.builder', r'.*', ['ef_seq', 'ef_builder']),
+    (r'ef\.builder', r'.*', ['ef_seq', 'ef_builder', 'ef_dict']),
     (r'ef\.iter', r'.*', ['ef_seq']),
     (r'ef\.scan', r'(EliasFanoIterator.*|iter|iter_from|into_iter|len)', ['ef_seq', 'ef_dict']),
     (r'ef\.scan', r'.*', ['ef_dict', 'ef_seq']),
     (r'ef\.(guards|dict).*', r'.*', ['ef_dict']),
+    (r'vfilter\..*', r'.*', ['vfilter']),
     (r'lenders\.take', r'.*', ['lenders_take']),
     (r'lenders\..*', r'.*', ['lenders']),
     (r'rank9', r'.*', ['rank9']),
